@@ -34,6 +34,10 @@ def split_top(s, sep=","):
             elif c == '"':
                 in_str = False
         else:
+            if c == "'" and i + 2 < len(s) and s[i + 2] == "'" and s[i + 1] != "\\":
+                cur.append(s[i:i + 3])     # char literal such as '"' or '(' : not a delimiter
+                i += 3
+                continue
             if c == '"':
                 in_str = True
                 cur.append(c)
